@@ -93,9 +93,11 @@ CHECKS = {
             "reached through transfers/unlocked markers only; transfers between iteration engines (incl. there-and-back) "
             "keep content and land in the requested engine; a no-op transfer returns the relation itself; materializing a "
             "leaf/materialization adds nothing in either engine family; backtrack_unary inserts nothing below a locked "
-            "node; every locked node of a tree returned by _finish_apply is an unchanged locked node of the input. Proof "
-            "(partial): transfers through the SQL engine's conform and the SQL-side _append_* functions are validated by "
-            "correspondence + the locked-node oracle, not proved. " + CORR, "", "DESIGN.md 5/C15"),
+            "node; every locked node of a tree returned by _finish_apply is an unchanged locked node of the input; transfers out of, into and "
+            "between SQL engines and materialized() inside a SQL engine (all through conform) keep rows and columns, land "
+            "in the requested engine and are well-formed (by the tree-building induction of C17). Proof (partial): a "
+            "transfer whose Transfer.simplify strips a there-and-back pair ending in a non-raw SQL relation, and locked "
+            "nodes under the SQL-side _append_* rewrites, are validated by correspondence + the locked-node oracle. " + CORR, "", "DESIGN.md 5/C15"),
     "C16": (PR, "Lean 4 theorems over the Diagnostics.run model (diag_sound, diag_exact) + regenerated flag table + correspondence",
             "Machine-checked: if Diagnostics.run reports doomed, the reference semantics of the tree is empty (without "
             "executor: unconditionally; with executor: for any executor that never under-counts... see Props/C16.lean), "
